@@ -81,7 +81,7 @@ func gen(r *hx.Rng, n int, tier string) []string {
 			ops = append(ops, fmt.Sprintf("filter %d %s", g, strings.Join(ids, ",")))
 		case 2:
 			if r.Chance(1, 3) {
-				ops = append(ops, fmt.Sprintf("flood %d", hx.Pick(r, []int{0, 1, 100, 8191, 8192, 8193, 20000, 70000})+r.Intn(3)))
+				ops = append(ops, fmt.Sprintf("flood %d", hx.Pick(r, []int{0, 1, 100, 2047, 2048, 4096, 8191, 8192, 8193, 20000, 30000})+r.Intn(3)))
 				continue
 			}
 			ops = append(ops, fmt.Sprintf("seq %s %d %d", hx.Pick(r, []string{"local", "libp2p"}), r.Range(1, 16), r.Range(1, 50)))
